@@ -5,7 +5,7 @@ import gen as G
 import cont
 
 MODEL_TARGETS = ["model/Container.vo"]
-COQ_TARGETS = ["props/C05.vo"]
+COQ_TARGETS = ["props/C05.vo", "proofs/ConstsTie.vo"]
 THEOREMS = [("C05", ["C05_roundtrip_null", "C05_build", "C05_blocks", "C05_any_partition"])]
 PROOF_FILES = ["proofs/ContainerReadProofs.v", "proofs/ContainerProofs.v", "proofs/ContainerFinal.v", "proofs/RoundTripProofs.v", "props/C05.v"]
 TRUSTED_BASE = [
